@@ -41,6 +41,8 @@ pub fn cells(tier: Tier) -> Vec<CellPlan> {
         EvOp::EmitS(SK::E1, Mode::Direct(1), None),
         EvOp::EmitS(SK::EI, Mode::Broadcast, None),
         EvOp::EmitS(SK::T1, Mode::Except(1), None),
+        EvOp::TouchConnection(0),
+        EvOp::ConnectSlowly(2),
     ];
     c.rounds = if q { 3 } else { 4 };
     v.push(plan(c.clone(), if q { 1 } else { 1 }, 3.0));
